@@ -51,7 +51,11 @@ FACTS = {
         ('subtraction_both_negated', 'elementpath/regex/character_classes.py', 'CharacterClass.__isub__', 'order', 'self.positive -= self.positive - other.negative ;; self.positive |= other.negative - self.negative ;; self.negative.clear()'),
         ('subtraction_negated_base', 'elementpath/regex/character_classes.py', 'CharacterClass.__isub__', 'has', 'self.negative |= other.positive'),
         ('subtraction_final_positive', 'elementpath/regex/character_classes.py', 'CharacterClass.__isub__', 'has', 'self.positive -= other.positive'),
-        ('parse_negated_class', 'elementpath/regex/patterns.py', 'translate_pattern', 'order', 'char_class = CharacterClass(char_class_pattern, xsd_version) ;; if negative: ;; char_class.complement()'),
+        ('parse_negated_class', 'elementpath/regex/patterns.py', 'translate_pattern', 'order', 'char_class = CharacterClass(char_class_pattern, xsd_version, bool(flags & re.IGNORECASE)) ;; if negative: ;; char_class.complement()'),
+        ('class_case_sensitive_under_i', 'elementpath/regex/patterns.py', 'translate_pattern', 'order', "elif flags & re.IGNORECASE: ;; regex.append('(?-i:%s)' % char_class_repr)"),
+        ('literals_get_case_variants', 'elementpath/regex/character_classes.py', 'CharacterClass.add', 'order', 'self.positive.update(part) ;; if self.ignore_case and part: ;; self._add_case_variants(UnicodeSubset(part))'),
+        ('case_variants_added_to_positive', 'elementpath/regex/character_classes.py', 'CharacterClass._add_case_variants', 'order', 'extra.update(sorted(variants)) ;; self.positive |= extra'),
+        ('case_variants_by_lower_or_upper', 'elementpath/regex/character_classes.py', 'get_case_variants', 'has', 'variants = set(by_lower[lower]) | set(by_upper[upper])'),
         ('parse_subtraction', 'elementpath/regex/patterns.py', 'translate_pattern', 'has', 'char_class -= subtracted_class'),
     ],
     'C18': [
